@@ -2,13 +2,19 @@
 import importlib, os, sys, json
 import core
 failed = 0
+owners = {}
+_lock = core.Lock()
+_lock.__enter__()      # extractors and the baseline copy must not race with a check run on a patched worktree
 for fn in sorted(os.listdir(os.path.join(core.VERIF, "harness", "props"))):
     if fn.startswith("c") and fn.endswith(".py"):
         mod = importlib.import_module("props." + fn[:-3])
         for g in getattr(mod, "GENERATORS", []):
+            gname = "%s.%s" % (g.__module__.split(".")[-1], g.__name__)
+            before = set(core.TOUCHED)
             try:
                 r = g()
                 print("gen %s.%s ok" % (fn[:-3], g.__module__))
+                owners[gname] = sorted(set(owners.get(gname, [])) | {os.path.basename(p) for p in core.TOUCHED - before})
             except Exception as e:
                 failed += 1
                 print("gen %s.%s FAILED: %s" % (fn[:-3], g.__module__, e))
@@ -20,5 +26,8 @@ if not failed:
     for fn in sorted(os.listdir(core.GEN_DIR)):
         if fn.endswith(".lean"):
             shutil.copyfile(os.path.join(core.GEN_DIR, fn), os.path.join(core.BASELINE_DIR, fn))
+    with open(os.path.join(core.BASELINE_DIR, "owners.json"), "w") as f:
+        json.dump(owners, f, indent=1, sort_keys=True)
     print("baseline refreshed (%s)" % core.BASELINE_DIR)
+_lock.__exit__()
 sys.exit(0)   # an extraction failure is reported by the property's own check, not by setup
